@@ -1757,6 +1757,20 @@ impl<'a, 'b, W: Write> SerializeSeq for SeqSer<'a, 'b, W> {
                 // key (e.g. a complex `? key`) left behind.
                 started_new_line = true;
             }
+            // `- - x` keeps the first inner dash on the outer dash's line. The following inner
+            // dashes are indented by whole steps, which only lines up with that first one when
+            // the step equals the width of "- ". For any other indent_step start the nested
+            // sequence on its own line instead.
+            if self.first
+                && !started_new_line
+                && !self.ser.at_line_start
+                && self.ser.indent_step != 2
+                && self.ser.after_dash_depth.is_some()
+            {
+                self.ser.newline()?;
+                self.ser.pending_inline_map = false;
+                started_new_line = true;
+            }
             // If previous element was an inline map after a dash, just clear the flag; do not change depth.
             if !self.first && self.ser.inline_map_after_dash {
                 self.ser.inline_map_after_dash = false;
